@@ -276,7 +276,7 @@ package actions
 //@   ensures still_unique: err == nil ==> unique_topic_names() && topics_wf()
 //@   ensures no_inherited_subscriptions: err == nil && old(subs_ri()) ==> (forall s Id :: {subscriptions.topic_id(s)} subscriptions.exists(s) ==> subscriptions.topic_id(s) != a.results.ID)
 //@   ensures no_swallowed_failure: [C09] dbfailed() && !old(dbfailed()) ==> err != nil
-//@   modifies T:topics:*, S:dbfailed, S:wake_on_commit, F:actions.CreateTopic:*, F:actions.createTopicResults:*, F:actions.actionTimer:*
+//@   modifies T:topics:*, S:dbfailed, S:wake_on_commit, F:actions.CreateTopic:actionBase.results*, F:actions.createTopicResults:*, F:actions.actionTimer:*
 
 //@ func (*DeleteTopic).Execute(a, ctx, tx) (err)
 //@   property C12
@@ -290,7 +290,7 @@ package actions
 //@   ensures snapshots_dropped: err == nil ==> (forall n Id :: snapshots.exists(n) ==> old(snapshots.exists(n)) && !old(topic_named(snapshots.topic_id(n), a.params.Name))) &&
 //@             (forall n Id :: old(snapshots.exists(n)) && !old(topic_named(snapshots.topic_id(n), a.params.Name)) ==> snapshots.exists(n))
 //@   ensures no_swallowed_failure: [C09] dbfailed() && !old(dbfailed()) ==> err != nil
-//@   modifies T:topics:deleted_at, T:topics:deleted_at$null, T:topics:live$null, T:snapshots:$live, S:dbfailed, S:wake_on_commit, E:uuid.UUID:, F:actions.DeleteTopic:*, F:actions.deleteTopicResults:*, F:actions.actionTimer:*
+//@   modifies T:topics:deleted_at, T:topics:deleted_at$null, T:topics:live$null, T:snapshots:$live, S:dbfailed, S:wake_on_commit, E:uuid.UUID:, F:actions.DeleteTopic:actionBase.results*, F:actions.deleteTopicResults:*, F:actions.actionTimer:*
 //@   loop 1
 //@     invariant forall k int :: {ids[k]} {topics[k]} 0 <= k && k <= idx ==> ids[k] == topics[k].ID
 //@     invariant len(ids) == len(topics)
@@ -306,7 +306,7 @@ package actions
 //@   ensures rows_stay: forall s Id :: subscriptions.exists(s) == old(subscriptions.exists(s)) && subscriptions.name(s) == old(subscriptions.name(s))
 //@   ensures wakes: [C10] err == nil ==> (forall s Id :: old(sub_named(s, a.params.Name)) ==> wake_on_commit(s))
 //@   ensures no_swallowed_failure: [C09] dbfailed() && !old(dbfailed()) ==> err != nil
-//@   modifies T:subscriptions:deleted_at, T:subscriptions:deleted_at$null, T:subscriptions:live$null, S:dbfailed, S:wake_on_commit, E:uuid.UUID:, F:actions.DeleteSubscription:*, F:actions.deleteSubscriptionResults:*, F:actions.actionTimer:*
+//@   modifies T:subscriptions:deleted_at, T:subscriptions:deleted_at$null, T:subscriptions:live$null, S:dbfailed, S:wake_on_commit, E:uuid.UUID:, F:actions.DeleteSubscription:actionBase.results*, F:actions.deleteSubscriptionResults:*, F:actions.actionTimer:*
 //@   loop 1
 //@     invariant forall k int :: {ids[k]} {subs[k]} 0 <= k && k <= idx ==> ids[k] == subs[k].ID
 //@     invariant len(ids) == len(subs)
@@ -343,7 +343,7 @@ package actions
 //@   ensures filter_validated: [C08] err == nil && a.params.Filter != "" ==> parses(a.params.Filter)
 //@   ensures wakes: [C10] err == nil ==> wake_on_commit(a.results.ID)
 //@   ensures no_swallowed_failure: [C09] dbfailed() && !old(dbfailed()) ==> err != nil
-//@   modifies T:subscriptions:*, S:dbfailed, S:wake_on_commit, F:actions.CreateSubscription:*, F:actions.createSubscriptionResults:*, F:actions.actionTimer:*
+//@   modifies T:subscriptions:*, S:dbfailed, S:wake_on_commit, F:actions.CreateSubscription:actionBase.results*, F:actions.createSubscriptionResults:*, F:actions.actionTimer:*
 
 // ---- C13: snapshots. A snapshot records the publish-time watermark W of the oldest outstanding delivery of the
 // subscription (or now if none) and the set A of topic messages published at or after W that are acknowledged on it.
@@ -371,7 +371,7 @@ package actions
 //@   ensures nothing_else: forall n Id :: old(snapshots.exists(n)) ==> snapshots.exists(n) && snapshots.name(n) == old(snapshots.name(n)) &&
 //@             snapshots.acked_messages_before(n) == old(snapshots.acked_messages_before(n)) && snapshots.acked_message_ids(n) == old(snapshots.acked_message_ids(n))
 //@   ensures no_swallowed_failure: [C09] dbfailed() && !old(dbfailed()) ==> err != nil
-//@   modifies T:snapshots:*, S:dbfailed, S:wake_on_commit, F:actions.CreateSnapshot:*, F:actions.createSnapshotResults:*, F:actions.actionTimer:*
+//@   modifies T:snapshots:*, S:dbfailed, S:wake_on_commit, F:actions.CreateSnapshot:actionBase.results*, F:actions.createSnapshotResults:*, F:actions.actionTimer:*
 
 // Seeking subscription S to snapshot (W, A) at instant now: retained deliveries of S published before W, or whose
 // message is in A, end up acknowledged; acknowledged deliveries of S published at or after W and not in A are
